@@ -12,6 +12,7 @@ import re
 import numpy
 from core import history_probe, Result, ddmin, parallel_map
 from gen import g3
+from corr import cli_annotator
 
 _CASES = []
 _EXPECTED = {}  # id(structure) -> bool: what the statement's 6 A / 35 deg / 45 deg demand of a straddle placement
@@ -291,7 +292,11 @@ def run(ctx):
             k += 1
             res.sample({"family": tag, "residues": [str(r) for r in st.residues][:8],
                         "stackings": ["%s-%s:%s" % (st.residues[a], st.residues[b], t) for a, b, t in yes][:6]})
+    through_extract(ctx, res, cases)
     __import__("corr.fn_common", fromlist=["run_fn"]).run_fn(ctx, res, "C04")  # regenerated functions vs the real ones (tools/py2lean.py)
+    # the command-line tool as an observation point: what annotator.main writes for a file and a set of options is what
+    # the library computes for that file (harness/corr/cli_annotator.py)
+    cli_annotator.judge(res, "C04", cli_annotator.evaluate(ctx))
     return res
 
 
@@ -303,8 +308,53 @@ def check_one(ctx, st, m):
     return impl, yes, und, compare(st, m, impl, yes, und)[0]
 
 
+def _both_ways(job):
+    """(stackings of find_stackings, stackings inside extract_base_interactions, is there a base pair?) for one structure"""
+    from rnapolis.annotator import extract_base_interactions, find_stackings
+    from core import call
+    st, m = g3.from_json(job[0]), job[1]
+    key = lambda p: (p.nt1.full_name, p.nt2.full_name, p.topology.value if p.topology is not None else None)  # noqa: E731
+    a = call(lambda: sorted(key(p) for p in find_stackings(st, m)))
+    b = call(lambda: extract_base_interactions(st, m))
+    if a[0] != "ok" or b[0] != "ok":
+        return (a if a[0] != "ok" else ("ok", None), ("err", b[1]) if b[0] != "ok" else ("ok", None), False)
+    return (a, ("ok", sorted(key(p) for p in b[1].stackings)), bool(b[1].basePairs))
+
+
+def through_extract(ctx, res, cases):
+    """the stacking list inside a whole annotation (`extract_base_interactions`, which every tool and the secondary
+    structure are built on) is the list `find_stackings` returns - also for residue pairs that are at the same time
+    reported as a base pair (random two-residue placements are drawn until some are)"""
+    from rnapolis.annotator import find_pairs, find_stackings
+    rng = ctx.rng
+    jobs = [(g3.to_json(st), m, tag) for tag, st, m in cases if len(st.residues) <= 40 and tag != "split-residue-both-with-base"]
+    jobs = jobs if len(jobs) <= ctx.pick(400, 4000) else rng.sample(jobs, ctx.pick(400, 4000))
+    found, tries = 0, 0
+    while found < ctx.pick(8, 60) and tries < ctx.pick(4000, 40000):
+        tries += 1
+        st = g3.stack_random(rng)
+        try:
+            if find_stackings(st, None) and find_pairs(st, None)[0]:
+                found += 1
+                jobs.append((g3.to_json(st), None, "stacked-and-paired"))
+        except Exception:  # noqa: BLE001
+            pass
+    res.dist["stacked-and-paired:found/tries"] = "%d/%d" % (found, tries)
+    for (js, m, tag), (a, b, paired) in zip(jobs, parallel_map(_both_ways, jobs)):
+        res.count("through-extract:" + ("stacked-and-paired" if tag == "stacked-and-paired" else "other"))
+        if a[0] != "ok" or b[0] != "ok" or a[1] is None or b[1] is None:
+            res.count("through-extract:raises")
+            continue
+        res.case(("extract", tag, repr(a[1])[:200], len(js.get("residues", js)) if isinstance(js, dict) else 0), nontrivial=bool(a[1]))
+        if a[1] != b[1]:
+            res.fail("spec", "C04:extract_base_interactions:stackings-differ-from-find_stackings", {"family": "extract:" + tag, "model": m, "structure": js},
+                     "find_stackings gives %s, the annotation lists %s%s" % (a[1][:4], b[1][:4], " (the pair is also reported as a base pair)" if paired else ""))
+
+
 def shrink(ctx, failure):
     """drop residues while a failure with the same signature remains"""
+    if cli_annotator.is_cli(failure.get("input")) or str(failure.get("input", {}).get("family", "")).startswith("extract:"):
+        return failure
     st = g3.from_json(failure["input"]["structure"])
     m = failure["input"].get("model")
     sig = failure["signature"]
@@ -328,6 +378,15 @@ def shrink(ctx, failure):
 
 def replay(ctx, data):
     inp = data["input"]
+    if cli_annotator.is_cli(inp):
+        return cli_annotator.replay_cli("C04", inp)
+    if str(inp.get("family", "")).startswith("extract:"):
+        a, b, paired = _both_ways((inp["structure"], inp.get("model")))
+        print("find_stackings              :", a)
+        print("extract_base_interactions   :", b, "(a base pair is reported too)" if paired else "")
+        if a != b:
+            print("SPEC FAILURE C04:extract_base_interactions:stackings-differ-from-find_stackings")
+        return
     st = g3.from_json(inp["structure"])
     m = inp.get("model")
     impl, yes, und, fails = check_one(ctx, st, m)
